@@ -23,8 +23,13 @@ package main
 //	10 <recv>.ack(…)
 //	11 <recv>.processAcked(…)
 //
-// Function literals are not entered (they run later, from processAcked); a
-// function literal that contains one of the calls 1-7, 9-11 is fatal.
+// Function literals are not entered (they run later, from processAcked); the
+// calls 1-7, 9-11 found inside function literals, deferred (other than 2) or
+// started with `go` are counted in ackIrregular (expected 0).
+//
+// Nothing here is fatal: a function that is missing yields the empty list, so
+// that a source of another shape breaks the obligations of C12
+// (Proofs/AckLock.facts_*) and not the fact extraction of every property.
 
 import (
 	"fmt"
@@ -40,6 +45,8 @@ import (
 func init() { extraSections = append(extraSections, factsAckLock) }
 
 var ackWaitRe = regexp.MustCompile(`^\w+\.sess\.\w+\.Wait$`)
+
+var ackIrregular int
 
 // ackCode classifies a call (0 = not relevant).
 func ackCode(call *ast.CallExpr) int {
@@ -78,7 +85,7 @@ func ackSeq(who string, node ast.Node) []int {
 			ast.Inspect(n.Body, func(m ast.Node) bool {
 				if call, ok := m.(*ast.CallExpr); ok {
 					if c := ackCode(call); c != 0 && c != 8 {
-						die("%s: call %s inside a function literal at %v", who, exprString(call.Fun), fset.Position(call.Pos()))
+						ackIrregular++
 					}
 				}
 				return true
@@ -89,11 +96,11 @@ func ackSeq(who string, node ast.Node) []int {
 				seq = append(seq, 2)
 				return false
 			} else if c != 0 {
-				die("%s: deferred call %s at %v", who, exprString(n.Call.Fun), fset.Position(n.Pos()))
+				ackIrregular++
 			}
 		case *ast.GoStmt:
 			if c := ackCode(n.Call); c != 0 {
-				die("%s: go %s at %v", who, exprString(n.Call.Fun), fset.Position(n.Pos()))
+				ackIrregular++
 			}
 		case *ast.CallExpr:
 			if c := ackCode(n); c != 0 {
@@ -163,25 +170,25 @@ func factsAckLock(repo string, o *out) {
 		}
 	}
 	sort.Strings(order)
-	need := func(name string) *ast.FuncDecl {
-		fd, ok := funcs[name]
-		if !ok {
-			die("ackLock: function service.%s not found", name)
+	// body of a function of the package; an empty block if there is no such function
+	need := func(name string) *ast.BlockStmt {
+		if fd, ok := funcs[name]; ok {
+			return fd.Body
 		}
-		return fd
+		return &ast.BlockStmt{}
 	}
 
 	// ---- the sending calls
 	senders := []string{"publish", "sendPublish", "subscribe", "unsubscribe", "ping"}
 	var sseqs [][]int
 	for _, s := range senders {
-		sseqs = append(sseqs, ackSeq(s, need(s).Body))
+		sseqs = append(sseqs, ackSeq(s, need(s)))
 	}
 	o.def("ackSenders", "List (String × List Nat)", leanNamedSeqs(senders, sseqs))
 
 	// publish begins with: if msg.QoS() == message.QosAtMostOnce { return svc.sendPublish(msg, onComplete) }
 	guard := false
-	if pb := need("publish").Body.List; len(pb) > 0 {
+	if pb := need("publish").List; len(pb) > 0 {
 		if is, ok := pb[0].(*ast.IfStmt); ok && is.Init == nil && is.Else == nil &&
 			exprString(is.Cond) == "(msg.QoS()==message.QosAtMostOnce)" && len(is.Body.List) == 1 {
 			if rs, ok := is.Body.List[0].(*ast.ReturnStmt); ok && len(rs.Results) == 1 &&
@@ -196,14 +203,14 @@ func factsAckLock(repo string, o *out) {
 	var cnames []string
 	var cseqs [][]int
 	nsw := 0
-	ast.Inspect(need("sendPublish").Body, func(n ast.Node) bool {
+	ast.Inspect(need("sendPublish"), func(n ast.Node) bool {
 		sw, ok := n.(*ast.SwitchStmt)
 		if !ok {
 			return true
 		}
 		nsw++
 		if sw.Tag == nil || exprString(sw.Tag) != "msg.QoS()" {
-			die("sendPublish: switch on %v, expected msg.QoS()", sw.Tag)
+			return false
 		}
 		for _, st := range sw.Body.List {
 			cc := st.(*ast.CaseClause)
@@ -223,17 +230,15 @@ func factsAckLock(repo string, o *out) {
 		}
 		return false
 	})
-	if nsw != 1 {
-		die("sendPublish: %d switch statements, expected 1", nsw)
-	}
+	o.def("ackSendPublishSwitches", "Nat", fmt.Sprint(nsw))
 	o.def("ackSendPublishCases", "List (String × List Nat)", leanNamedSeqs(cnames, cseqs))
 
 	// ---- the processor side
-	o.def("ackHelper", "List Nat", natList(ackSeq("ack", need("ack").Body)))
+	o.def("ackHelper", "List Nat", natList(ackSeq("ack", need("ack"))))
 	var tnames []string
 	var tseqs [][]int
 	nts := 0
-	ast.Inspect(need("processIncoming").Body, func(n ast.Node) bool {
+	ast.Inspect(need("processIncoming"), func(n ast.Node) bool {
 		ts, ok := n.(*ast.TypeSwitchStmt)
 		if !ok {
 			return true
@@ -266,9 +271,7 @@ func factsAckLock(repo string, o *out) {
 		}
 		return false
 	})
-	if nts != 1 {
-		die("processIncoming: %d type switches, expected 1", nts)
-	}
+	o.def("ackProcessIncomingSwitches", "Nat", fmt.Sprint(nts))
 	o.def("ackProcessIncoming", "List (String × List Nat)", leanNamedSeqs(tnames, tseqs))
 	// nothing relevant outside the type switch
 	count := func(seq []int) int {
@@ -280,7 +283,7 @@ func factsAckLock(repo string, o *out) {
 		}
 		return n
 	}
-	rest := count(ackSeq("processIncoming", need("processIncoming").Body))
+	rest := count(ackSeq("processIncoming", need("processIncoming")))
 	inCases := 0
 	for _, s := range tseqs {
 		inCases += count(s)
@@ -303,4 +306,6 @@ func factsAckLock(repo string, o *out) {
 	o.def("ackProcessAckedCallers", "List String", leanStrList(sites[11]))
 	o.def("ackSendPublishCallers", "List String", leanStrList(sites[7]))
 	o.def("ackWindowSites", "List String", leanStrList(sites[4]))
+	// the site lists were computed last: every function of the package has been walked by now
+	o.def("ackIrregular", "Nat", fmt.Sprint(ackIrregular))
 }
